@@ -1,4 +1,4 @@
-CONSTANTS MaxGen = 3 DropStyledBlank = FALSE RowSkip = "never" Family = "quick2" EmitReplay = FALSE
+CONSTANTS MaxGen = 3 DropStyledBlank = FALSE ColFold = "adjacent" RowSkip = "never" Family = "quick2" EmitReplay = FALSE
 SPECIFICATION MCSpec
 VIEW View
 INVARIANTS FixedPoint FileFixedPoint OrigSim OrigSimExists EditLocal SaveTwiceSame NormIdempotent
